@@ -490,9 +490,48 @@ func TestDrive_C11(t *testing.T) {
 		})
 }
 
+// a retry policy around a rate limiter with a max wait time: attempts refused at once (ErrExceeded), then an attempt
+// whose permit is granted after a wait -- and the caller's context is cancelled (or its deadline reached) during that wait
+func limiterWaitScenarios(rng *Rng, n int, add func(InstD, []ReqD, string)) {
+	for i := 0; i < n; i++ {
+		period := Pick(rng, []int64{16384, 32768})
+		maxWait := period*5/8 + 64
+		delay := Pick(rng, []int64{1024, 2048})
+		inst := InstD{Limiters: []LimCfg{{Max: 1, Period: period, MaxWait: maxWait}}}
+		var stack []PolD
+		if rng.Chance(30) {
+			stack = append(stack, PolD{K: "Timeout", Limit: 10*period + 512})
+		}
+		stack = append(stack, PolD{K: "Retry", MaxRetries: int64(8 + rng.Intn(8)), Delay: delay})
+		if rng.Chance(40) {
+			stack = append(stack, PolD{K: "Fallback", FBKind: "WrapErr"})
+		} else if rng.Chance(30) {
+			stack = append(stack, PolD{K: "Breaker", Inst: 0})
+			inst.Breakers = [][]BCallD{{{K: "FailureThreshold", A: 50}, {K: "Delay", A: 4096 + 128}}}
+		}
+		stack = append(stack, PolD{K: "Limiter", Inst: 0, MaxWait: maxWait})
+		// the first attempt takes the period's permit and fails; attempts are refused until period - maxWait, then one waits
+		waitFrom := period - maxWait
+		rq := ReqD{Stack: stack, CtxKey: -1, Entry: Pick(rng, []string{"Get", "GetWithExecution", "GetAsync", "RunWithExecution"}),
+			Script: []FnStepD{{Out: OutD{Err: &ErrD{K: "Sent"}}, Dur: int64(rng.Intn(2)) * 512}},
+			ExtT:   waitFrom + delay + 100 + int64(rng.Intn(int(maxWait-delay-200))), ExtKind: Pick(rng, []string{"Cancel", "Deadline"})}
+		if strings.HasPrefix(rq.Entry, "Run") {
+			rq.Script[0].Out.R = 0
+		}
+		add(inst, []ReqD{rq}, "limiter-wait-cancelled")
+	}
+}
+
 func TestDrive_C16(t *testing.T) {
 	pf := execProfile{name: "C16", kinds: allKinds, maxDepth: 5, extPct: 10, coopPct: 40, maxReqs: 4, hedgePct: 20}
-	driveExec(t, "C16", pf, 400, 12000, "random stacks and histories as for C01, with every policy listener registered and executor listeners registered in random subsets. "+execRule, nil)
+	driveExec(t, "C16", pf, 400, 12000, "random stacks and histories as for C01, with every policy listener registered and executor listeners registered in random subsets; plus retry policies around a rate limiter with a max wait time whose granted-after-a-wait attempt is cancelled during the wait (after refused attempts). "+execRule,
+		func(w *CaseWriter, rng *Rng, add func(InstD, []ReqD, string)) {
+			n := 30
+			if envTier() == "thorough" {
+				n = 800
+			}
+			limiterWaitScenarios(rng, n, add)
+		})
 }
 
 func TestDrive_C17(t *testing.T) {
